@@ -10,6 +10,7 @@ import (
 	"os/exec"
 	"strconv"
 	"strings"
+	"sync"
 	"time"
 )
 
@@ -23,9 +24,14 @@ type solver struct {
 	sat     int
 	unsat   int
 	unknown int
+	cached  int // answered from queryCache (identical text already decided)
 	time    time.Duration
 	logw    io.Writer // optional query log
 }
+
+// queryCache: verdicts (sat/unsat only) of model-free queries by solver kind and
+// full query text, shared by all workers of the process.
+var queryCache sync.Map
 
 func newSolver(kind string) *solver {
 	s := &solver{kind: kind}
@@ -101,6 +107,21 @@ func (s *solver) check(asserts []*Term, wantModel bool, timeoutMs int) (string, 
 	defer func() { s.time += time.Since(t0) }()
 	s.queries++
 	script, vars := renderQuery(asserts)
+	// identical query text (same solver) => identical verdict: the many paths of
+	// one obligation repeat the same small feasibility queries
+	cacheKey := ""
+	if !wantModel {
+		cacheKey = s.kind + "\x00" + script
+		if r, ok := queryCache.Load(cacheKey); ok {
+			s.cached++
+			if r.(string) == "sat" {
+				s.sat++
+			} else {
+				s.unsat++
+			}
+			return r.(string), map[string]uint64{}
+		}
+	}
 	var sb strings.Builder
 	sb.WriteString("(reset)\n")
 	if s.kind == "cvc5" {
@@ -152,6 +173,9 @@ func (s *solver) check(asserts []*Term, wantModel bool, timeoutMs int) (string, 
 		s.unsat++
 	default:
 		s.unknown++
+	}
+	if cacheKey != "" && (res == "sat" || res == "unsat") {
+		queryCache.Store(cacheKey, res)
 	}
 	if res != "sat" || !wantModel || len(vars) == 0 {
 		return res, map[string]uint64{}
